@@ -173,15 +173,67 @@ pub fn run(out: &mut Out, seed: u64, thorough: bool) {
         let two = [ExtSpec { id: 0x0211, data: vec![7, 7] }, e.clone()];
         one(out, &mut rng, &two, 0xFFFF, label, plen, complete_len + 4, 0, "edge_id_second");
     }
+    // storage one to three bytes short of the PDU (and exactly as long), for chains of every closing kind: a type
+    // field, a final mandatory extension with and without data.  The receiver must refuse without panicking and
+    // give the buffer back; with an exact-size storage it must deliver
+    let closings: Vec<(Vec<ExtSpec>, u16)> = vec![
+        (vec![ExtSpec { id: 0x0211, data: vec![1, 2] }], 0x0800),
+        (vec![ExtSpec { id: 0x0042, data: vec![1, 2, 3] }], 0x0800),
+        (vec![ExtSpec { id: 0x0043, data: vec![5, 6] }], 0x0043),
+        (vec![ExtSpec { id: 0x0046, data: vec![] }], 0x0046),
+        (vec![ExtSpec { id: 0x0211, data: vec![1, 2] }, ExtSpec { id: 0x0046, data: vec![] }], 0x0046),
+        (vec![ExtSpec { id: 0x0042, data: vec![1, 2, 3] }, ExtSpec { id: 0x0043, data: vec![5, 6] }], 0x0043),
+    ];
+    for (ci, (exts, ptype)) in closings.iter().enumerate() {
+        for short in 0..=3usize {
+            for fragmented in [false, true] {
+                let plen = 20 + ci;
+                let storage = plen - short;
+                let pdu = Pdu::random(out, plen, &mut rng);
+                let mut rx = mk_rx(out, "ext", "tight_storage", 2, storage, 1, mgr_kind(0), true);
+                rx.note_id(40);
+                let mut enc = Encapsulator::new(DefaultCrc {});
+                let extlen: usize = exts.iter().map(|e| 2 + e.data.len()).sum::<usize>() - if *ptype < 0x0100 { 2 } else { 0 };
+                let buf = if fragmented { 7 + 3 + extlen + plen / 2 } else { 200 };
+                let t = ev_encap(out, &mut enc, &pdu, 40, LA3, *ptype, buf, Some(exts), None);
+                let ctx = match &t.res {
+                    Some(Ok(EncapStatus::CompletedPkt(_))) => {
+                        feed(out, &mut rx, &t.wire, vec![]);
+                        None
+                    }
+                    Some(Ok(EncapStatus::FragmentedPkt(_, c))) => {
+                        feed(out, &mut rx, &t.wire, vec![]);
+                        Some(*c)
+                    }
+                    _ => None,
+                };
+                if let Some(c) = ctx {
+                    let t = ev_encap_frag(out, &enc, &pdu, &c, 4097);
+                    if reported_len(&t.res).is_some() {
+                        feed(out, &mut rx, &t.wire, vec![]);
+                    }
+                }
+                // the receiver still works
+                let small = Pdu::random(out, storage.min(5), &mut rng);
+                let t = ev_encap(out, &mut enc, &small, 41, LA6, 0x0800, 64, None, None);
+                if reported_len(&t.res).is_some() {
+                    feed(out, &mut rx, &t.wire, vec![]);
+                }
+                rx.ev_drain(out);
+            }
+        }
+    }
     // mandatory extensions longer than 255 bytes: a sender may build them (the receiver's manager cannot describe
     // them, so nothing is fed); every length the sender reports must still be the length it wrote
-    for n in [256usize, 257, 300, 511, 512, 1000] {
+    for n in [256usize, 257, 300, 511, 512, 1000, 2040, 2045, 2500, 4000, 4085, 4090, 5000] {
         let e = [ExtSpec { id: 0x0048, data: rng.bytes(n) }];
-        let pdu = Pdu::random(out, 20, &mut rng);
-        for buf in [4 + 3 + 2 + n + 20, 4097, 100, 7 + 3 + 2 + n, 7 + 3 + 2 + n + 5, (n % 256) + 30] {
-            out.begin("ext", Obj::new().str("what", "long_mandatory").boolean("lock", false));
-            let mut enc = Encapsulator::new(DefaultCrc {});
-            ev_encap(out, &mut enc, &pdu, 3, LA3, 0x0800, buf, Some(&e), None);
+        for plen in [20usize, 3000] {
+            let pdu = Pdu::random(out, plen, &mut rng);
+            for buf in [4 + 3 + 2 + n + plen, 4097, 100, 7 + 3 + 2 + n, 7 + 3 + 2 + n + 5, (n % 256) + 30, 8000, 70000] {
+                out.begin("ext", Obj::new().str("what", "long_mandatory").boolean("lock", false));
+                let mut enc = Encapsulator::new(DefaultCrc {});
+                ev_encap(out, &mut enc, &pdu, 3, LA3, 0x0800, buf, Some(&e), None);
+            }
         }
     }
     // plain encap with a signalling protocol type (a final mandatory extension without data in the type
